@@ -40,6 +40,24 @@ def _opaque(shown):
                    "<lambda@"):
         if marker in txt:
             return marker
+    # a generator *object* that is iterated later (`g = (.. for ..)`, then
+    # `for x in g` / next(g)): its loop runs wherever it is consumed, which
+    # the interpreter does not follow -- the element of an unexpanded
+    # comprehension, `<comprehension>(...)[*]`
+    i = txt.find("<comprehension>(")
+    while i >= 0:
+        j, depth = i + len("<comprehension>"), 0
+        while j < len(txt):
+            if txt[j] == "(":
+                depth += 1
+            elif txt[j] == ")":
+                depth -= 1
+                if depth == 0:
+                    break
+            j += 1
+        if txt[j + 1:j + 4] == "[*]":
+            return "element of a generator object"
+        i = txt.find("<comprehension>(", i + 1)
     return None
 
 
